@@ -42,8 +42,8 @@ import (
 	"time"
 
 	martian "github.com/google/martian/v3"
-	"github.com/google/martian/v3/mitm"
 	mlog "github.com/google/martian/v3/log"
+	"github.com/google/martian/v3/mitm"
 	"verifharness/hx"
 	"verifharness/p1x"
 )
@@ -109,6 +109,7 @@ type child struct {
 	addr string
 	gen  int
 	dead string // non-empty: how the last child died
+	last string // how the child before this one died
 	errb *bytes.Buffer
 	in   io.WriteCloser
 }
@@ -169,6 +170,9 @@ func (c *child) get() (string, int) {
 	c.mu.Lock()
 	defer c.mu.Unlock()
 	if c.cmd == nil || c.dead != "" {
+		if c.dead != "" {
+			c.last = c.dead
+		}
 		c.dead = ""
 		if err := c.start(); err != nil {
 			fmt.Fprintln(os.Stderr, "cannot start proxy child:", err)
@@ -183,7 +187,7 @@ func (c *child) diedSince(gen int) (string, bool) {
 	c.mu.Lock()
 	defer c.mu.Unlock()
 	if c.gen != gen {
-		return "restarted", true
+		return "restarted-after:" + c.last, true
 	}
 	if c.dead != "" {
 		return c.dead, true
@@ -473,12 +477,11 @@ func runUF(in []string) (out []string) {
 		exs = append(exs, e)
 		byID[e.ID] = e
 	}
-	origin, err := p1x.NewOrigin(false, nil)
-	if err != nil {
-		return []string{"ENV:listen"}
-	}
-	defer origin.Close()
-	origin.SetHandler(func(idx int, m *p1x.Msg) p1x.Action {
+	// An origin that closes silently after a COMPLETE response (cut at the very
+	// end) leaves a dead connection in the transport's pool; whether the next
+	// request trips over it is a race outside anybody's control. Exchanges after
+	// such a one talk to a fresh origin (another port, another pool entry).
+	handler := func(idx int, m *p1x.Msg) p1x.Action {
 		if strings.HasSuffix(m.Target, sentinel) {
 			return p1x.Action{Bytes: []byte("HTTP/1.1 200 OK\r\nContent-Length: 2\r\nConnection: close\r\n\r\nok"), Close: true}
 		}
@@ -503,8 +506,35 @@ func runUF(in []string) (out []string) {
 			return p1x.Action{Bytes: garbage[e.K], Close: true}
 		}
 		return p1x.Action{Bytes: full, Close: e.SC || e.Framing == "x"}
-	})
-
+	}
+	var origins []*p1x.Origin
+	defer func() {
+		for _, o := range origins {
+			o.Close()
+		}
+	}()
+	newOrigin := func() *p1x.Origin {
+		o, err := p1x.NewOrigin(false, nil)
+		if err != nil {
+			return nil
+		}
+		o.SetHandler(handler)
+		origins = append(origins, o)
+		return o
+	}
+	origin := newOrigin()
+	if origin == nil {
+		return []string{"ENV:listen"}
+	}
+	originOf := make([]*p1x.Origin, len(exs))
+	for i, e := range exs {
+		originOf[i] = origin
+		if e.Outcome == "cut" && e.K >= fullLen(e) {
+			if origin = newOrigin(); origin == nil {
+				return []string{"ENV:listen"}
+			}
+		}
+	}
 	addr, gen := ch.get()
 	conn, err := net.Dial("tcp", addr)
 	if err != nil {
@@ -557,8 +587,8 @@ func runUF(in []string) (out []string) {
 	}
 	if mode == "pipe" {
 		var all bytes.Buffer
-		for _, e := range exs {
-			all.Write(e.request(origin.Addr))
+		for i, e := range exs {
+			all.Write(e.request(originOf[i].Addr))
 		}
 		go conn.Write(all.Bytes())
 		for _, e := range exs {
@@ -573,9 +603,9 @@ func runUF(in []string) (out []string) {
 			}
 		}
 	} else {
-		for _, e := range exs {
+		for i, e := range exs {
 			conn.SetWriteDeadline(time.Now().Add(30 * time.Second))
-			conn.Write(e.request(origin.Addr))
+			conn.Write(e.request(originOf[i].Addr))
 			conn.SetReadDeadline(time.Now().Add(idleNow()))
 			m := p1x.ReadResponse(br, methodName(e.Meth), true)
 			if !record(m) {
@@ -865,22 +895,63 @@ func main() {
 		cases = append(cases, generate(cfg)...)
 	}
 	outs := make([][]string, len(cases))
-	var wg sync.WaitGroup
-	next := make(chan int)
-	for w := 0; w < 12; w++ {
-		wg.Add(1)
-		go func() {
-			defer wg.Done()
-			for i := range next {
-				outs[i] = runRobust(cases[i].In)
+	runParallel := func(idxs []int) {
+		var wg sync.WaitGroup
+		next := make(chan int)
+		for w := 0; w < 12; w++ {
+			wg.Add(1)
+			go func() {
+				defer wg.Done()
+				for i := range next {
+					outs[i] = runRobust(cases[i].In)
+				}
+			}()
+		}
+		for _, i := range idxs {
+			next <- i
+		}
+		close(next)
+		wg.Wait()
+	}
+	isDead := func(i int) bool {
+		for _, t := range outs[i] {
+			if strings.HasPrefix(t, "DEAD:") {
+				return true
 			}
-		}()
+		}
+		return false
 	}
+	all := make([]int, len(cases))
+	for i := range all {
+		all[i] = i
+	}
+	runParallel(all)
+	// The proxy process is shared by the cases that run in parallel: when it
+	// dies, every case in flight suffers. Who did it? Each suspect once more,
+	// alone; then everything else once more without the culprits.
+	culprit := map[int]bool{}
 	for i := range cases {
-		next <- i
+		if isDead(i) {
+			time.Sleep(100 * time.Millisecond)
+			plainChild.get()
+			mitmChild.get()
+			outs[i] = runRobust(cases[i].In)
+			if isDead(i) {
+				culprit[i] = true
+			}
+		}
 	}
-	close(next)
-	wg.Wait()
+	if len(culprit) > 0 {
+		var rest []int
+		for i := range cases {
+			if !culprit[i] {
+				rest = append(rest, i)
+			}
+		}
+		plainChild.get()
+		mitmChild.get()
+		runParallel(rest)
+	}
 	for i, c := range cases {
 		cfg.Emit(hx.Case{Name: c.Name, In: c.In, Out: outs[i]})
 	}
